@@ -170,6 +170,24 @@ NEWER = [b'a |= 1\n', b'a \\= 2\n', b'?x,y\n', b'a=b=c\n', b'x = 1 y == 2\n', b'
          b'f() ) g()\n', b'x = {1,2,,}\n', b'local a <const> = 1\n', b'a ^^= 1\n', b'a >>>= 1\n', b'x=1 end y=2\n']
 
 
+SHORTIF_PROBES = [b'if (a) print("x\\ny") b=1\nc=2\n', b'if (a) return "\\n"\n', b"if (a) s='\\\\' t=2\nu=3\n", b'if (a) f[[x]] g=1\nh=2\n',
+                  b'if (a) f() --[[k]] g=1\nh=2\n', b'if (a) b=1 else c="\\n"\nd=4\n', b'if (a) b="\\"" c=[=[]]]=] d=1\ne=2\n',
+                  b'function f()\n if (a) return "\\n", 1\nend\n', b'if (a) b=1 --c\nd="\\n"\n', b'if (a) b="\\065\\x41\\z  c" d=2\ne=3\n']
+
+
+def probe_cases():
+    """short-if lines that carry every kind of string literal and comment (valid programs: a load failure is a finding)"""
+    from .. import ast2deriv
+    out = []
+    for k, src in enumerate(SHORTIF_PROBES):
+        try:
+            d = ast2deriv.trace(src)['deriv']
+        except Exception:
+            d = ['Chunk', 'StEnd']
+        out.append(('shortif-probe%d' % k, src, d, True))
+    return out
+
+
 def mutated_inputs(ctx, rnd, cases, n):
     """valid programs with one significant token deleted or inserted (lexable, mostly unparsable)"""
     out = []
@@ -256,7 +274,7 @@ def run(ctx):
     # CR-only line ends (old Mac editors): a line end for the reference and for picotool alike; only comment-free sources
     # (where a comment ends when a lone CR follows is the one point on which the dialect is not pinned down)
     cronly = [(n + '/cr', s.replace(b'\n', b'\r'), d, v) for (n, s, d, v) in cases[::25] if b'--' not in s and b'//' not in s]
-    judge(ctx, degen + nofinal + crlf + fxcrlf + cronly, (2,))
+    judge(ctx, degen + nofinal + crlf + fxcrlf + cronly + probe_cases(), (2,))
     muts = mutated_inputs(ctx, rnd, cases + fx, 400 if ctx.quick else 4000)
     no_silent_loss(ctx, muts + [('newer%d' % k, s) for k, s in enumerate(NEWER)] + [(n, s) for n, s, _, _ in cases[::40]])
     ctx.evaluations += len(cases) + len(muts)
